@@ -24,6 +24,10 @@ func (g *G) intLit() *Lit {
 	} else {
 		v = I64Pool[g.R.Intn(len(I64Pool))]
 	}
+	if v >= 0 && g.R.Intn(15) == 0 {
+		// leading zeros: still a decimal literal
+		return &Lit{V: v, Text: "00" + strconv.FormatInt(v, 10)}
+	}
 	return &Lit{V: v, Text: strconv.FormatInt(v, 10)}
 }
 
